@@ -285,6 +285,10 @@ class Interp:
         if isinstance(a, VList) and isinstance(b, VSeq):
             return self.eq(b, a)
         if isinstance(a, VSet) and isinstance(b, VSet):
+            if getattr(a, "pointwise", False) or getattr(b, "pointwise", False):
+                # opt-in (set by a model): membership-wise equality, which skolemises as a goal
+                k = z3.Const("k!seteq", a.z.sort().domain())
+                return z3.ForAll([k], a.z[k] == b.z[k])
             return a.z == b.z
         if isinstance(a, VMap) and isinstance(b, VMap):
             return z3.And(a.present == b.present,
